@@ -43,8 +43,10 @@ def main(tier):
         cp_acts = sorted(r2["acts"], key=common.canon)
         L_sp, L_cp = (5, 4) if thorough else (4, 3)
         nr, rl = (400, 10) if thorough else (150, 8)
-        jobs_sp = [([c], sp_acts, L_sp, nr, rl, common.seed() + i) for i, c in enumerate(sp_cfgs)]
-        jobs_cp = [([c], cp_acts, L_cp, nr, rl, common.seed() + i) for i, c in enumerate(cp_cfgs)]
+        # thorough: every path one step shorter, and every 8th path of the full length (the alphabets grew with the None values)
+        stride = 8 if thorough else 1
+        jobs_sp = [([c], sp_acts, L_sp, nr, rl, common.seed() + i, stride) for i, c in enumerate(sp_cfgs)]
+        jobs_cp = [([c], cp_acts, L_cp, nr, rl, common.seed() + i, stride) for i, c in enumerate(cp_cfgs)]
         events = []
         for o in pipeline.pmap(D.run_sp, jobs_sp):
             events += o
@@ -68,7 +70,7 @@ def main(tier):
         rep.add_events(len(events), distinct, [events[5], events[n_sp + 5]])
         rep.coverage.update({"paths_spec_property": n_sp, "paths_classproperty": len(events) - n_sp, "accesses": steps,
                              "judge_antecedents": res["ante"], "exhaustive": True,
-                             "bounds": {"spec_property_path_len": L_sp, "classproperty_path_len": L_cp, "random_paths_per_config": nr, "random_len": rl}})
+                             "bounds": {"spec_property_path_len": L_sp, "classproperty_path_len": L_cp, "full_length_stride": stride, "random_paths_per_config": nr, "random_len": rl}})
         for k in ("reads", "rejected_assign", "rejected_delete", "type_errors"):
             if not res["ante"].get(k):
                 raise tla.MachineryError(f"judge antecedent {k} never true")
